@@ -65,7 +65,7 @@ class MomentCoefficient(om.ExplicitComponent):
 
         self.declare_partials(of="*", wrt="*")
 
-    def compute(self, inputs, outputs):
+    def _compute_moment(self, inputs):
         cg = inputs["cg"]
 
         M = np.zeros((3))
@@ -119,6 +119,11 @@ class MomentCoefficient(om.ExplicitComponent):
 
         self.M = M
 
+        return M
+
+    def compute(self, inputs, outputs):
+        M = self._compute_moment(inputs)
+
         # Output the moment vector
         outputs["M"] = M
 
@@ -131,7 +136,9 @@ class MomentCoefficient(om.ExplicitComponent):
         S_ref_total = inputs["S_ref_total"]
         v = inputs["v"]
 
-        # Cached values
+        # Re-evaluate the moment and the main wing's MAC and area at the current inputs;
+        # the values left by the last compute call may belong to another (or a complex-step) point.
+        self._compute_moment(inputs)
         M = self.M
         MAC_wing = self.MAC_wing
         S_ref_wing = self.S_ref_wing
